@@ -1,6 +1,7 @@
 package main
 
 import (
+	"sort"
 	"fmt"
 	"go/token"
 	"strings"
@@ -250,6 +251,125 @@ func runC19(c *Check) {
 		} else {
 			c.Bad("C19-R3", "derivation ⟂ "+d, fnName(fn), p.Pos(fn.Pos()), "address derivation is not sha256.Sum256(pub.Raw())[:] ("+key+"): the address a signer reports differs from the one full nodes derive from its public key", nil)
 		}
+	}
+	// ---- R6: the key derivation is a function of passphrase, salt and constants only
+	c.Doc("C19-R6", "VP: the key-derivation helpers (the functions of the key-file code that map a passphrase to a key) read nothing but their parameters and constants: no runtime, OS, clock or random input and no package variable, so the key derived for a file does not depend on where or when it is loaded.")
+	{
+		nk := 0
+		var hs []*ssa.Function
+		for fn := range helpers {
+			hs = append(hs, fn)
+		}
+		sort.Slice(hs, func(i, j int) bool { return fnName(hs[i]) < fnName(hs[j]) })
+		for _, fn := range hs {
+			if resultTypes(fn) != "[]byte" || !hasParamOfType(fn, "[]byte") || fn.Signature.Recv() != nil {
+				continue
+			}
+			nk++
+			var impure []string
+			seenF := map[*ssa.Function]bool{}
+			var scan func(f *ssa.Function, d int)
+			scan = func(f *ssa.Function, d int) {
+				if seenF[f] || d > 3 {
+					return
+				}
+				seenF[f] = true
+				for _, b := range f.Blocks {
+					for _, in := range b.Instrs {
+						switch x := in.(type) {
+						case *ssa.Call:
+							cn := commonName(x.Common())
+							for _, pre := range []string{"runtime.", "os.", "time.", "math/rand", "crypto/rand", "syscall.", "(*os.", "os/user."} {
+								if strings.HasPrefix(cn, pre) {
+									impure = append(impure, cn)
+								}
+							}
+							if cal := x.Common().StaticCallee(); cal != nil && p.InRepo(cal) {
+								scan(cal, d+1)
+							}
+						case *ssa.UnOp:
+							if gl, ok := x.X.(*ssa.Global); ok && x.Op == token.MUL {
+								impure = append(impure, "package variable "+gl.Name())
+							}
+						}
+					}
+				}
+			}
+			scan(fn, 0)
+			sort.Strings(impure)
+			inst := fnShort(fn) + " ⟂ depends-on-passphrase-salt-constants-only"
+			if len(impure) == 0 {
+				c.OK("C19-R6", inst, fnName(fn), p.Pos(fn.Pos()), "no runtime / OS / clock / random input and no package variable is read", true)
+			} else {
+				c.Bad("C19-R6", inst, fnName(fn), p.Pos(fn.Pos()), "the derived key depends on "+strings.Join(impure, ", ")+": a key file saved in one environment does not open with its passphrase in another", nil)
+			}
+		}
+		if nk == 0 {
+			c.Unk("C19-R6", "key-derivation-helpers", "", "", "anchor lost: no passphrase-to-key helper among the functions the key loader and writer call")
+		}
+		c.MinInstances("C19-R6", 2)
+	}
+	// ---- R7: AEAD preconditions. cipher.AEAD.Open / Seal panic on a nonce whose length is not
+	// NonceSize(); a nonce read from the key file is attacker / corruption controlled.
+	c.Doc("C19-R7", "GA: every AEAD Open/Seal in the key-file code gets a nonce that was allocated with NonceSize() or whose length was tested against NonceSize() on every path (the library panics otherwise: a truncated key file must fail cleanly).")
+	{
+		nAead := 0
+		for _, fn := range p.Funcs {
+			pk := fnPkg(fn)
+			if pk == nil || pk.Pkg.Path() != filePkg || fn.Blocks == nil {
+				continue
+			}
+			var g *Graph
+			for _, b := range fn.Blocks {
+				for _, in := range b.Instrs {
+					call, ok := in.(*ssa.Call)
+					if !ok || !call.Common().IsInvoke() {
+						continue
+					}
+					cn := commonName(call.Common())
+					if cn != "(crypto/cipher.AEAD).Open" && cn != "(crypto/cipher.AEAD).Seal" {
+						continue
+					}
+					if g == nil {
+						g = BuildECFG(p, fn, ExpandOpts{MaxDepth: 0})
+						c.NoteGraph(g)
+					}
+					nAead++
+					nonce := TermOf(call.Common().Args[1], &Ctx{Fn: fn})
+					inst := fnShort(fn) + " ⟂ " + cn[strings.LastIndex(cn, ".")+1:] + " nonce " + trunc(nonce.String(), 40)
+					fresh := nonce.Op == "make" || strings.HasPrefix(nonce.String(), "make(")
+					if fresh && strings.Contains(nonce.String(), "NonceSize") {
+						c.OK("C19-R7", inst, fnName(fn), p.InstrPos(in), "the nonce is allocated with NonceSize()", true)
+						continue
+					}
+					guarded := false
+					inn := in
+					for _, f := range g.NecessaryEdges(func(x *Node) bool { return x.Kind == NInstr && x.In == inn }) {
+						t, pol := normFact(f.Cond, f.Pol)
+						if t.Op != "bin" || len(t.Args) != 2 {
+							continue
+						}
+						a, b2 := t.Args[0].unconv().String(), t.Args[1].unconv().String()
+						isLen := func(x string) bool { return x == "len("+nonce.String()+")" }
+						isSize := func(x string) bool { return strings.Contains(x, "AEAD).NonceSize(") }
+						if (isLen(a) && isSize(b2)) || (isLen(b2) && isSize(a)) {
+							if (t.Name == "==" && pol) || (t.Name == "!=" && !pol) {
+								guarded = true
+							}
+						}
+					}
+					if guarded {
+						c.OK("C19-R7", inst, fnName(fn), p.InstrPos(in), "the nonce length is tested against NonceSize() on every path", true)
+					} else {
+						c.Bad("C19-R7", inst, fnName(fn), p.InstrPos(in), "the nonce comes from the key file and its length is not tested against NonceSize(): a truncated or corrupted key file makes the AEAD panic instead of failing cleanly", nil)
+					}
+				}
+			}
+		}
+		if nAead == 0 {
+			c.Unk("C19-R7", "AEAD-calls", "", "", "anchor lost: no AEAD Open/Seal in the key-file package")
+		}
+		c.MinInstances("C19-R7", 4)
 	}
 	c.Doc("C19-R5", "VP+EO: a buffer is zeroed outside a defer only after the last use of every value that may alias it.")
 	ruleWipeAfterLastUse(c, p, keyFns)
